@@ -927,6 +927,9 @@ func Run(c *common.Ctx) error {
 			return fmt.Errorf("%s/empty-then-write: %w", kind, err)
 		}
 	}
+	if err := strayDirectory(c, cf, c.Rng.Fork()); err != nil {
+		return fmt.Errorf("file/stray-directory: %w", err)
+	}
 	for _, kind := range []string{"file", "lfsc"} {
 		if err := emptyIdle(c, cf, c.Rng.Fork(), kind); err != nil {
 			return fmt.Errorf("%s/empty-idle: %w", kind, err)
@@ -1090,6 +1093,44 @@ func emptyIdle(c *common.Ctx, cf *common.CaseFile, r *common.Rand, kind string) 
 		return fmt.Errorf("cannot read images")
 	} else if ok, why := got.Equal(want); !ok {
 		c.Violate("C14:"+kind+":empty-idle:image", "the adopted database differs from the one the service was given: "+why, rep)
+	}
+	return nil
+}
+
+// strayDirectory: the directory of the file-based backup holds a sub-directory with no transaction file in it
+// (lost+found on a mounted volume; what a failed first upload leaves behind). It is no database of the service: syncs
+// succeed and bring the service to the primary's position.
+func strayDirectory(c *common.Ctx, cf *common.CaseFile, r *common.Rand) error {
+	dir, err := os.MkdirTemp(c.OutDir, "c14s-")
+	if err != nil {
+		return err
+	}
+	defer os.RemoveAll(dir)
+	e := &env{c: c, r: r, kind: "file", svcDir: filepath.Join(dir, "svc")}
+	_ = os.MkdirAll(filepath.Join(e.svcDir, "lost+found"), 0o755)
+	e.fc = litefs.NewFileBackupClient(e.svcDir)
+	_ = e.fc.Open()
+	p, err := e.newPrimary(filepath.Join(dir, "p"))
+	if err != nil {
+		return err
+	}
+	defer p.node.Close()
+	if err := p.commit(2); err != nil {
+		return err
+	}
+	var errs []string
+	for i := 0; i < 3; i++ {
+		if err := p.node.Store.SyncBackup(bg); err != nil {
+			errs = append(errs, err.Error())
+		}
+	}
+	c.Evaluations++
+	c.Distinct("file:stray-directory")
+	rep := map[string]any{"kind": "backup-stray-directory", "sync_errors": errs}
+	m, _ := e.fc.PosMap(bg)
+	sv := posT{uint64(m["db"].TXID), uint64(m["db"].PostApplyChecksum)}
+	if lp := p.pos(); len(errs) > 0 || sv != lp {
+		c.Violate("C14:file:stray-directory", fmt.Sprintf("the backup directory holds an empty sub-directory (lost+found) next to the databases: three syncs of an idle primary at %v leave the service at %v (errors: %v)", lp, sv, errs), rep)
 	}
 	return nil
 }
